@@ -166,6 +166,12 @@ func DecodeBlockAt(file []byte, off int64) (Block, bool) {
 	if crc32.ChecksumIEEE(comp) != sum {
 		return b, false
 	}
+	// snappy.Decode allocates the length its preamble declares before it reads the stream; a stream cannot
+	// expand more than ~32x, so a larger declaration is an invalid block (and must not cost the reference
+	// decoder gigabytes on forged input)
+	if dl, derr := snappy.DecodedLen(comp); derr != nil || dl > 128*len(comp)+1024 {
+		return b, false
+	}
 	raw, err := snappy.Decode(nil, comp)
 	if err != nil || uint32(len(raw)) != us {
 		return b, false
